@@ -445,6 +445,56 @@ Theorem C06_integral_float_capacity : forall k den n, 0 < den ->
 Proof. exact q_integral. Qed.
 Print Assumptions C06_integral_float_capacity.
 
+(* ================= round 4 *)
+(* CellCollection.select(filter_func, at_most) on all_cells / empties (same statement shape as AgentSet.select, C03): the
+   counting generator with `break` returns the first `limit` members, in collection order, that pass the filter *)
+Theorem C06_select_spec : forall e s w p am,
+  coll_select e s w p am =
+  match limit_of (zlen (coll_cells e s w)) am with
+  | None => filter (cpred_eval s p) (coll_cells e s w)
+  | Some k => firstn (Z.to_nat k) (filter (cpred_eval s p) (coll_cells e s w))
+  end.
+Proof. exact select_spec. Qed.
+Print Assumptions C06_select_spec.
+
+(* members that pass the filter, no duplicates, at most the limit, everybody when the limit is large or infinite *)
+Theorem C06_select_exact : forall e s w p am,
+  let r := coll_select e s w p am in
+  (forall c, In c r -> In c (coll_cells e s w) /\ cpred_eval s p c = true) /\
+  NoDup r /\
+  (forall k, limit_of (zlen (coll_cells e s w)) am = Some k -> 0 <= k -> zlen r <= k) /\
+  (forall k, limit_of (zlen (coll_cells e s w)) am = Some k ->
+             zlen (filter (cpred_eval s p) (coll_cells e s w)) <= k -> r = filter (cpred_eval s p) (coll_cells e s w)) /\
+  (am = AInf -> r = filter (cpred_eval s p) (coll_cells e s w)).
+Proof. exact select_exact. Qed.
+Print Assumptions C06_select_exact.
+
+Theorem C06_select_fraction_floor : forall len num den, 0 < den -> 0 <= num <= den -> 0 <= len ->
+  limit_of len (AFrac num den) = Some (len * num / den) /\ 0 <= len * num / den <= len.
+Proof. exact select_fraction_floor. Qed.
+Print Assumptions C06_select_fraction_floor.
+
+(* Cell.connect / Cell.disconnect edit the LIVE connections that move_relative / move read (env_x): *)
+Theorem C06_connect_spec : forall e x c other key x' r,
+  xstep e x (Connect c other key) = (x', r) -> r <> NotApplicable ->
+  xs x' = xs x /\ born x' = born x /\
+  e_conn (env_x e (born x') (ov x')) c key = Some other /\
+  (forall c' d', (c, key) <> (c', d') ->
+     e_conn (env_x e (born x') (ov x')) c' d' = e_conn (env_x e (born x) (ov x)) c' d').
+Proof. exact connect_spec. Qed.
+Print Assumptions C06_connect_spec.
+
+Theorem C06_disconnect_spec : forall e x c other ks x' r,
+  xstep e x (Disconnect c other ks) = (x', r) -> r <> NotApplicable ->
+  xs x' = xs x /\ born x' = born x /\
+  (forall d, In d ks -> e_conn (env_x e (born x') (ov x')) c d <> Some other) /\
+  (forall c' d, c' <> c \/ e_conn (env_x e (born x) (ov x)) c' d <> Some other ->
+     e_conn (env_x e (born x') (ov x')) c' d = e_conn (env_x e (born x) (ov x)) c' d).
+Proof. exact disconnect_spec. Qed.
+Print Assumptions C06_disconnect_spec.
+(* histories with connect / disconnect are histories without direct cell calls: C06_mirror_growing_population and
+   C18_cellspace_atomic_growing_population above cover them (the invariant does not read the connections). *)
+
 Example C06_example_mirror_capacity_views :
   let s := exec ex_env init ex_ops in
   ptr s 1 = Some 0 /\ content s 0 = [1] /\ content s 1 = [2] /\ content s 2 = [4] /\ reg s 1 = true /\
@@ -544,4 +594,19 @@ Example C06_example_round3 :
   snd (xstep ex_env (xexec ex_env (xinit 4) [Api (SetCell 1 (Some 0))]) (CollRandomCell CEmpties (Some 0))) = Illegal /\
   snd (xstep ex_env (xexec ex_env (xinit 4) [Api (SetCell 1 (Some 0))]) (CellAdd 0 2)) = Err E_FULL /\
   q_rejects 5 2 2 = false /\ q_rejects 5 2 3 = true /\ q_full 5 2 3 = false /\ q_ceil 5 2 = 3.
+Proof. vm_compute. repeat split; reflexivity. Qed.
+
+Example C06_example_round4 :
+  let x := xexec ex_env (xinit 4) [Api (SetCell 1 (Some 0)); Api (SetCell 4 (Some 2))] in
+  coll_select ex_env (xs x) CAll PNonEmpty AInf = [0; 2] /\
+  coll_select ex_env (xs x) CAll PAny (AInt 3) = [0; 1; 2] /\
+  coll_select ex_env (xs x) CAll PEmpty (AFrac 1 4) = [1] /\
+  coll_select ex_env (xs x) CEmpties (PIdxMod 2 1) AInf = [1; 3] /\
+  coll_select ex_env (xs x) CAll PAny (AInt (-1)) = [] /\
+  (* cell 0 has no connection to the north; after connect(0 -> 3, north) agent 1 moves there; after disconnect it cannot *)
+  snd (xstep ex_env x (Api (MoveRel 1 [-1; 0]))) = Err E_NODIR /\
+  ptr (xs (xexec ex_env x [Connect 0 3 [-1; 0]; Api (MoveRel 1 [-1; 0])])) 1 = Some 3 /\
+  snd (xstep ex_env (xexec ex_env x [Connect 0 3 [-1; 0]; Disconnect 0 3 [[-1; 0]; [1; 0]]]) (Api (MoveRel 1 [-1; 0]))) = Err E_NODIR /\
+  snd (xstep ex_env (xexec ex_env x [Connect 0 3 [-1; 0]]) (ConnQuery 0 [[-1; 0]; [1; 0]; [0; 1]])) = Ok [3; 2; 1] /\
+  api_only [Connect 0 3 [-1; 0]; Disconnect 0 3 []; CollSelect CAll PAny AInf] = true.
 Proof. vm_compute. repeat split; reflexivity. Qed.
